@@ -56,3 +56,73 @@ def bitflips(s: bytes):
 def truncations(s: bytes):
     for i in range(len(s)):
         yield s[:i]
+
+
+# ---------------------------------------------------------------------------------------------------------------------
+# aliasing oracle: whatever a caller does to a structure it was handed must not show in a later, independent call
+def scribble(obj):
+    """edit a returned structure in place as thoroughly as a caller could: every nested mutable container is edited first
+    (so an alias held anywhere is exposed), then every value of this container is replaced, a key / element is removed and
+    a foreign one is added"""
+    if isinstance(obj, dict):
+        for k in list(obj):
+            v = obj[k]
+            if isinstance(v, (dict, list, bytearray, set)):
+                scribble(v)
+            obj[k] = _other(v)
+        if obj:
+            obj.pop(next(reversed(list(obj))))
+        obj["__scribbled__"] = 1
+    elif isinstance(obj, list):
+        for i, v in enumerate(obj):
+            if isinstance(v, (dict, list, bytearray, set)):
+                scribble(v)
+            obj[i] = _other(v)
+        obj.reverse()
+        if obj:
+            obj.pop()
+        obj.append("__scribbled__")
+    elif isinstance(obj, bytearray):
+        for i in range(len(obj)):
+            obj[i] ^= 0xFF
+        obj.append(0x5A)
+    elif isinstance(obj, set):
+        obj.clear()
+        obj.add("__scribbled__")
+
+
+def _other(v):
+    if isinstance(v, bool):
+        return not v
+    if isinstance(v, int):
+        return v + 77
+    if isinstance(v, str):
+        return ("00" + v[2:]) if v[:2] != "00" and len(v) >= 2 else ("ff" + v[2:] if v else "ff")
+    if isinstance(v, (bytes,)):
+        return bytes(b ^ 0xFF for b in v) or b"\xff"
+    return v if isinstance(v, (dict, list, bytearray, set)) else "__scribbled__"
+
+
+def aliasing(fn):
+    """fn() -> result. Call it, keep a deep copy, scribble over the result, call it again: the second result must equal the
+    copy.  Returns None when it does, else a short description (exceptions of fn are the caller's business: returns None)"""
+    import copy
+    try:
+        r1 = fn()
+        snap = copy.deepcopy(r1)
+    except Exception:
+        return None
+    try:
+        scribble(r1)
+        if isinstance(r1, tuple):
+            for x in r1:
+                scribble(x)
+    except Exception:
+        pass
+    try:
+        r2 = fn()
+    except Exception as e:
+        return f"the second call raised {type(e).__name__}: {str(e)[:80]}"
+    if r2 != snap:
+        return f"second result {str(r2)[:120]} differs from the first {str(snap)[:120]}"
+    return None
